@@ -67,7 +67,7 @@ def unit_cid_read():
                                 "accepted-only-with-a-data-format-and-at-least-one-field", props=["C09"]),
                          Clause("d_rows >= 1 and f_rows >= 1", "accepted-only-after-a-D-row-and-an-F-row", props=["C09"]),
                          Clause("known_upto(len(rows))", "accepted-only-if-every-row-marker-is-empty-or-D-F-C", props=["C09"])],
-                raises={"InterfaceError": [Clause(lambda ex, st: Sym(BOOL, z3.Or(z3.BoolVal(bool(st.ghost.get("from_validate"))),
+                raises={"InterfaceError": [Clause(lambda ex, st: Sym(BOOL, z3.Or(z3.BoolVal(False),        # (no exemption for the contradictions DataFormat.validate() finds: they are reported at the end of the CID)
                                                   z3.And(z3.BoolVal(st.ghost["__exc__"] is not None), lift(st.heap[st.heap[st.ghost["__exc__"].oid]["_location"].oid]["_line"]).z == lift(st.frames[-1].env.get("_i0", 0)).z)
                                                   if st.heap[st.ghost["__exc__"].oid].get("_location") is not None else z3.BoolVal(False))),
                                                   "every-rejection-carries-the-number-of-the-offending-row-(or-of-the-end-of-the-CID-for-completeness-errors)", props=["C09"])]},
@@ -105,7 +105,7 @@ def describe_cid(cid):
     df = cid.data_format
     return {"format": {k: v for k, v in sorted(df.__dict__.items()) if k not in ("_is_valid", "_VALID_LINE_DELIMITER_TEXTS", "_allowed_characters")},
             "fields": [(type(f).__name__, f.field_name, f.is_allowed_to_be_empty, str(f.length), f.rule, f.example) for f in cid.field_formats],
-            "checks": [(type(cid.check_map[n]).__name__, n, cid.check_map[n].rule) for n in cid.check_names]}
+            "checks": [(type(cid.check_map[n]).__name__, n, cid.check_map[n].rule.strip()) for n in cid.check_names]}
 
 
 def rewrites(rows):
@@ -115,6 +115,7 @@ def rewrites(rows):
     yield "property names and format value upper case", [[r[0], r[1].upper(), r[2].upper() if r[1] == "format" else r[2]] if r[0] == "d" else r for r in rows]
     yield "blanks around field name, empty mark, type, rule", [[r[0], " " + r[1] + " "] + [(" " + v + " ") if i in (3, 5, 6) and v != "" or i == 3 else v for i, v in enumerate(r) if i >= 2] if r[0] == "f" else r for r in rows]
     yield "empty mark upper case", [[v.upper() if i == 3 else v for i, v in enumerate(r)] if r[0] == "f" else r for r in rows]
+    yield "blanks around check rule", [[r[0], r[1], r[2], " " + r[3] + " "] if r[0] == "c" else r for r in rows]
     d = [r for r in rows if r[0] == "d"]; rest = [r for r in rows if r[0] != "d"]
     yield "reordered properties", d[:1] + list(reversed(d[1:])) + rest
 
@@ -134,6 +135,11 @@ def defects(rows):
     yield "unknown property", ins(1, ["d", "colour", "red"]), 1
     yield "property of another format", ins(1, ["d", "sheet" if fmt in ("delimited", "csv", "fixed") else "item delimiter", "1"]), 1
     yield "broken header value", ins(1, ["d", "header", "-1"]), 1
+    if fmt in ("delimited", "csv"):
+        yield "broken skip initial space value", ins(1, ["d", "skip initial space", "maybe"]), 1
+        # contradictions between properties show when the CID is completed: the rejection names the end of the CID
+        yield "item delimiter equal to the quote character", rows[:1] + [["d", "item delimiter", "'"], ["d", "quote character", "'"]] + [r for r in rows[1:] if r[1] not in ("item delimiter", "quote character")], len(rows[:1] + [r for r in rows[1:] if r[1] not in ("item delimiter", "quote character")]) + 2
+        yield "equal decimal and thousands separators", rows + [["d", "decimal separator", ","], ["d", "thousands separator", ","]], len(rows) + 2
     yield "field before data format", [rows[fi[0]]] + rows, 0
     for i in fi[:3]:
         yield "field name starting with a digit", put(i, 1, "1abc"), i
@@ -188,6 +194,10 @@ def defects(rows):
     for i in ci:
         # (a DistinctCount rule without a comparison, e.g. 'kind' or 'kind + 1', is accepted because 0 == False and 1 == True in Python;
         #  the statement of C09 only demands 'a rule naming only declared fields', so this is noted in DESIGN.md and not part of the catalogue)
+        if rows[i][2] == "DistinctCount":
+            yield "distinct count rule naming an undeclared field behind 'or'", put(i, 3, "kind < 3 or nosuchfield > 1"), i
+            yield "distinct count rule naming another declared field", put(i, 3, "kind < 3 and id > 1"), i
+            yield "distinct count rule calling a function", put(i, 3, "kind < 3 or len(kind) > 1"), i
         if rows[i][2] == "DistinctCount": yield "distinct count rule that is no expression", put(i, 3, "kind <"), i; yield "distinct count rule starting with a number", put(i, 3, "3 < kind"), i
 
 
@@ -206,7 +216,7 @@ def unit_c09_catalogue():
             try: b = describe_cid(read(r2))
             except Exception as e: return {"expected": "CID %s with %s stays accepted" % (name, label), "observed": repr(e)}
             return None if a == b else {"expected": a, "observed": b}
-        r1 = sweep("C09/catalogue/meaning-preserving rewrites keep the interface", rw_cases(), rw_check, "bounded", "6 base CIDs (all formats, all 8 field types, 0-2 checks) x 7 rewrites (comment rows, trailing cells, marker case/blanks, name case, surrounding blanks, X case, reordered properties)",
+        r1 = sweep("C09/catalogue/meaning-preserving rewrites keep the interface", rw_cases(), rw_check, "bounded", "6 base CIDs (all formats, all 8 field types, 0-2 checks) x 8 rewrites (comment rows, trailing cells, marker case/blanks, name case, surrounding blanks, blanks around check rules, X case, reordered properties)",
                    describe=lambda c: {"cid": c[0], "rewrite": c[1], "rows": c[3]}, function="interface.Cid.read", unit="C09.catalogue", props=["C09"])
         def df_cases():
             for name, rows in base_cids():
@@ -221,9 +231,24 @@ def unit_c09_catalogue():
                 return None
             except Exception as e: return {"expected": "InterfaceError for defect %r" % label, "observed": repr(e)}
             return {"expected": "CID %s with defect %r rejected at row %d" % (name, label, blame + 1), "observed": "accepted"}
-        r2_ = sweep("C09/catalogue/one structural defect at every applicable row is rejected at that row", df_cases(), df_check, "bounded", "6 base CIDs x a catalogue of ~45 structural defects applied at every applicable row",
+        r2_ = sweep("C09/catalogue/one structural defect at every applicable row is rejected at that row", df_cases(), df_check, "bounded", "6 base CIDs x a catalogue of ~50 structural defects applied at every applicable row",
                     describe=lambda c: {"cid": c[0], "defect": c[1], "rows": c[2], "row_to_blame": c[3] + 1}, function="interface.Cid.read", unit="C09.catalogue", props=["C09"])
-        return [r1, r2_]
+        # checks added through the programmatic interface (Cid.add_check) are registered after the ones of the CID, in order
+        def ac_cases():
+            for name, rows in base_cids():
+                if any(r[0] == "f" and r[1] == "id" for r in rows): yield (name, rows)
+        def ac_check(c):
+            from cutplace import checks
+            name, rows = c; cid = read(rows); before = list(cid.check_names)
+            try:
+                cid.add_check(checks.IsUniqueCheck("added later", "id", cid.field_names))
+                cid.add_check(checks.DistinctCountCheck("added last", "id < 100", cid.field_names))
+            except Exception as e: return {"expected": "Cid.add_check registers the check", "observed": repr(e)}
+            got = list(cid.check_names)
+            if got != before + ["added later", "added last"] or list(cid.check_map) != got: return {"expected": before + ["added later", "added last"], "observed": got}
+        r3 = sweep("C09/catalogue/checks added with Cid.add_check are registered in order", ac_cases(), ac_check, "bounded", "the base CIDs with a field 'id' x two added checks", describe=lambda c: {"cid": c[0]},
+                   function="interface.Cid.add_check", unit="C09.catalogue", props=["C09", "C20"])
+        return [r1, r2_, r3]
     return NativeUnit("C09.catalogue", "bounded stand-in: rewrite and one-defect catalogues end to end against Cid.read", ["C09"], run, kind="bounded")
 
 
